@@ -1,1 +1,2 @@
 import TieE.Properties
+import TieE.DataProofs
